@@ -36,4 +36,15 @@ pub mod verif_hooks {
     pub fn take() -> Vec<(String, Schedule)> {
         std::mem::take(&mut *RECORDS.lock().unwrap())
     }
+
+    /// lines describing the min-cost-flow network, the flow and the decoded tours per vehicle type
+    pub static MCF: Mutex<Vec<String>> = Mutex::new(Vec::new());
+
+    pub fn mcf_line(line: String) {
+        MCF.lock().unwrap().push(line);
+    }
+
+    pub fn take_mcf() -> Vec<String> {
+        std::mem::take(&mut *MCF.lock().unwrap())
+    }
 }
